@@ -635,6 +635,7 @@ func TestReplay(t *testing.T) {
 	types := []string{"p256", "p384", "rsa2048", "ed25519", "p256"}
 	keys := map[string]crypto.Signer{}
 	keyTypes := map[string]string{}
+	nRSA := 0
 	toks := []string{}
 	for _, c := range tab.Certs {
 		if c.IsCA && !contains(toks, c.Key) { // CA keys first: they sign
@@ -655,6 +656,11 @@ func TestReplay(t *testing.T) {
 		kt := types[rnd.Intn(len(types))]
 		if i < 4 { // every algorithm is present whatever the seed
 			kt = types[i%4]
+		}
+		if kt == "rsa2048" {
+			if nRSA++; nRSA > 3 { // pki pools four RSA keys per process: distinct tokens must stay distinct keys
+				kt = "p256"
+			}
 		}
 		keys[tok] = pki.NewKey(kt)
 		keyTypes[tok] = kt
@@ -730,6 +736,8 @@ func TestReplay(t *testing.T) {
 					n := perBad
 					if c.Ok {
 						n = perOK
+					} else if len(c.Tags) == 1 && c.Tags[0] == "two" {
+						n = 1 // the doubly perturbed chains are many: the lenient pair and one drawn combination each
 					}
 					ks = []int{1, 1 + 24} // lenient with now = 0 and now = 9
 					for j := 0; j < n; j++ {
